@@ -100,9 +100,9 @@ func (s Space) Alphabet() []string {
 	for _, d := range s.DelAll {
 		a = append(a, fmt.Sprintf("delall:%d:%d", d[0], d[1]))
 	}
-	if s.Reopen {
-		a = append(a, "reopen")
-	}
+	// Reopen is not a letter: a re-instantiated store reports the same state, so the
+	// search would never continue behind it. It is explored as the restart probe that
+	// runSpace executes from every distinct state (see OnState there).
 	return a
 }
 
@@ -548,6 +548,7 @@ func TestC16(t *testing.T) {
 		"distinct_nontrivial":           nontrivial,
 		"rule": "state = canonical report of the read interface (FetchPayment per hash, FetchInFlightPayments, QueryPayments) of the real KVStore, identical on the real SQLStore; " +
 			"transition = one PaymentControl/PaymentWriter call executed on both stores in lock-step, every alphabet operation in every state of depth < bound (BFS, shortest histories); " +
+			"from every distinct state additionally the restart probe (store re-instantiated, InitPayment of each hash, twice); " +
 			"every transition runs: admission clauses against the reference ledger, the transcribed 16-row status table on every reported payment, absorbing-status clauses, refused-op-changes-nothing, ledger==report, returned==stored, in-flight/query listings, KV==SQL (outcome, error class, returned payment, state); " +
 			"evaluations = store operations executed (both backends, incl. replayed prefixes); distinct_nontrivial = distinct canonical states in which a payment with at least one attempt exists",
 		"exhaustive":                     len(caps) == 0,
